@@ -1,4 +1,5 @@
 import AnonCreds.Model.Claims
+import AnonCreds.Model.Fr
 /-
 Text syntax shared by the line-protocol driver (`Main.lean`) and the Rust harness.
 Byte strings are lower-case hex, the empty string is `-`; scalars are 64 hex digits big-endian.
@@ -47,5 +48,22 @@ def typeOf? : String → Option ClaimType
   | "revocation" => some .revocation
   | "enumeration" => some .enumeration
   | _ => none
+
+end AC.Wire
+
+namespace AC.Wire
+open AC
+
+def frHex (x : Fr) : String := scalarHex x.val
+def frOf? (s : String) : Option Fr := (scalarOf? s).map Fr.ofNat
+
+/-- comma-separated list, `-` is the empty list -/
+def listOf? {α} (f : String → Option α) (s : String) : Option (List α) :=
+  if s = "-" then some [] else (s.splitOn ",").mapM f
+
+def showList {α} (f : α → String) (l : List α) : String :=
+  if l.isEmpty then "-" else ",".intercalate (l.map f)
+
+def g1Tok (x : Fr) : String := "@g1(" ++ frHex x ++ ")"
 
 end AC.Wire
